@@ -366,7 +366,7 @@ func runC07(sc *c07Scenario) *Violation {
 			conn.EOFNow()
 			conn.FailWrites(errors.New("injected: broken pipe"))
 		case "readerr":
-			conn.FailRead(errors.New("injected read error"), true)
+			conn.FailRead(ircsim.ReadError(sc.InBacklog), true) // (plain / timed out / reset / unexpected EOF, by scenario)
 			conn.FailWrites(errors.New("injected: connection reset"))
 		case "writeerr":
 			conn.FailWrites(errors.New("injected write error"))
